@@ -529,7 +529,15 @@ def o_update(ctx, case):
     if err:
         return err
     win = [x for k_, v_ in a.items() if k_.endswith('window') for x in v_ if np.isfinite(x)]
-    tscale = max([abs(x) for x in win] + [0.0])
+    # rounding scale of the stored window: the largest time the window ever sat at during the history (moving a
+    # window from an MJD-sized t0 to 0 leaves an absolute error of an ulp of the MJD), not only its final place
+    hist_t = [abs(float((spec['t'] if spec['kind'] == 'ffm' else spec).get('p', {}).get('t0', 0.0)))]
+    for op in ops:
+        if op[0] in ('set', 'copyset'):
+            hist_t += [abs(float(v_)) for n_, v_ in op[1] if n_ in ('t0', 't_start', 't_stop')]
+        elif op[0] == 'move':
+            hist_t.append(abs(float(op[1])) * (ufac(op[2], 'day') or 1.0 if len(op) > 2 and op[2] else 1.0))
+    tscale = max([abs(x) for x in win] + [sum(hist_t)])
     for key in a:
         timeish = key.split('.')[-1] in ('window', 'int', 'tot') and (key.startswith('t.') or '.' not in key)
         if not _close(a[key], b[key], rtol=1e-9, atol=1e-12 * tscale if timeish else 0.0, group=key.endswith('window')):
@@ -1147,7 +1155,9 @@ def o_purity(ctx, case):
         w_ = np.ravel(np.asarray(want, dtype=np.float64))
         g_ = np.ravel(np.asarray(got, dtype=np.float64))
         ok_ = (np.abs(w_) > 1e-30) & (np.abs(w_) < 1e30)
-        if kind in E_KINDS and not _same(g_[ok_], w_[ok_], 1e-4, noise32):
+        # quad cannot reach its 1e-10 tolerance on a single-precision integrand: 1e-3 for the numerical integrals
+        rt32 = 1e-3 if (method == 'int' and kind in NUMERIC_INT_KINDS) else 1e-4
+        if kind in E_KINDS and not _same(g_[ok_], w_[ok_], rt32, noise32):
             # single-precision arithmetic is accepted, a different number is not (times: MJD-sized
             # values are not representable in float32, only shape / purity are checked there)
             raise _Tag('float32-wrong-result', '%s with float32 arrays = %r, with the same numbers as float64 %r' % (desc, np.asarray(got).tolist(), np.asarray(want).tolist()))
